@@ -2513,6 +2513,8 @@ refill(struct evrrul_s *restrict strm)
 		if (strm->ncch < (size_t)rr->count) {
 			rr->count -= strm->ncch;
 		} else {
+			/* the fillers work in whole sets, the count doesn't */
+			strm->ncch = rr->count;
 			rr->count = 0;
 		}
 	}
